@@ -70,5 +70,14 @@ History of misses (each led to an extension, after which the change is caught):
   and kill as a nested operation of on_run.
 * S_C14b (on_stop reached through an on_run error runs outside the task-local scope): on_run never returned Err in the
   deadlock-detection configurations -> RunOuts includes "err" there.
+* S_C16c (the TellHandler forwarder of blocking_tell goes through the deprecated alias and loses its timeout): written
+  while C16 only compared cooperative (async) executions; the blocking forwarders were exercised by the C17 stress only ->
+  direct / wrapper call pairs in the frozen-actor scenario with a C16 pair rule, and spec/Blocking.tla whose cases are
+  executed once on the ActorRef and once through the wrapper.
+* S_C17c (the timed blocking_ask borrows the caller's runtime handle instead of building a private runtime): the frozen
+  scenario's current-thread caller catches it as a late return; spec/Blocking.tla now models who drives the timer
+  (deviation HelperRt = "ambient" is refuted by TLC) and its 216 executable cases are replayed on real threads.
+* S_C20c (an ask whose caller gave up is not counted in message_count): the C20 configurations had no timed operations, so no
+  reply ever failed to be delivered -> stage c20t (askT / tellT with timeouts).
 """)
 print(len(rows), "seeds")
